@@ -10,10 +10,12 @@ import (
 	"context"
 	"database/sql"
 	"database/sql/driver"
+	"encoding/hex"
 	"errors"
 	"io"
 	"io/ioutil"
 	"net/http"
+	"sort"
 	"strings"
 	"testing"
 
@@ -103,7 +105,8 @@ func (t *verifC19Transport) RoundTrip(req *http.Request) (*http.Response, error)
 
 func verifC19Case(line string) string {
 	f := strings.Split(line, " ")
-	if f[0] != "legacy" || len(f) != 9 {
+	wire := len(f) == 10 && (f[0] == "legacyw" || f[0] == "legacynf")
+	if !(f[0] == "legacy" && len(f) == 9) && !wire {
 		return "bad-op"
 	}
 	remote := verifc19.Unhex(f[1])
@@ -128,7 +131,22 @@ func verifC19Case(line string) string {
 	}
 	defer h.pgdb.Close()
 	req := in.Request()
+	if wire {
+		delete(req.Header, "X-Request-Id")
+		if f[9] != "-" {
+			for _, it := range strings.Split(f[9], ",") {
+				kv := strings.SplitN(it, "=", 2)
+				req.Header[verifc19.Unhex(kv[0])] = []string{verifc19.Unhex(kv[1])}
+			}
+		}
+		if f[0] == "legacynf" {
+			delete(h.Cluster.RemoteClusters, remote)
+		}
+	}
 	resp, err := h.remoteClusterRequest(remote, req)
+	if he, ok := err.(HTTPError); ok && he.Code == http.StatusNotFound && len(tr.sent) == 0 {
+		return "notfound"
+	}
 	if err != nil {
 		if err == auth.ErrSalted {
 			return "err salted n=" + string(rune('0'+len(tr.sent)))
@@ -140,11 +158,37 @@ func verifC19Case(line string) string {
 		return "unexpected-request-count"
 	}
 	out := tr.sent[0]
+	extra := ""
+	if wire {
+		var names []string
+		for k := range out.req.Header {
+			switch k {
+			case "Authorization", "Cookie", "Content-Type", "X-Forwarded-For", "X-Forwarded-Proto", "Via":
+			default:
+				names = append(names, k)
+			}
+		}
+		sort.Strings(names)
+		var hs []string
+		for _, k := range names {
+			for _, v := range out.req.Header[k] {
+				hs = append(hs, hex.EncodeToString([]byte(k))+"="+hex.EncodeToString([]byte(v)))
+			}
+		}
+		hfield := "-"
+		if len(hs) > 0 {
+			hfield = strings.Join(hs, ",")
+		}
+		extra = " H=" + hfield + " XFF=" + verifc19.HexList(out.req.Header["X-Forwarded-For"]) +
+			" XFP=" + verifc19.HexList(out.req.Header["X-Forwarded-Proto"]) + " VIA=" + verifc19.HexList(out.req.Header["Via"]) +
+			" U=" + verifc19.Hex(out.req.URL.Scheme+"://"+out.req.URL.Host+out.req.URL.Path) + " M=" + out.req.Method
+	}
 	return "fwd A=" + verifc19.HexList(out.req.Header["Authorization"]) +
 		" Qi=" + verifc19.Hex(in.RawQuery) + " Q=" + verifc19.Hex(out.req.URL.RawQuery) +
 		" Bi=" + verifc19.Hex(in.Body) + " B=" + verifc19.Hex(string(out.body)) +
 		" K=" + verifc19.HexList(out.req.Header["Cookie"]) +
 		" T=" + verifc19.HexList(out.req.Header["Content-Type"]) +
+		extra +
 		" X=" + verifc19.Hex(verifc19.Dump(out.req, out.body))
 }
 
